@@ -46,6 +46,9 @@ var families = []family{
 	{"producer", "retry", 16, func(r *rand.Rand) map[string]int {
 		return map[string]int{"nmsg": pick(r, 1, 2, 3, 4), "rmax": pick(r, 0, 1, 2, 3), "flush": pick(r, 1, 2), "buf": pick(r, 0, 1, 4), "brokers": pick(r, 1, 2), "nerr": pick(r, 1, 2, 3)}
 	}},
+	{"producer", "slowerr", 6, func(r *rand.Rand) map[string]int {
+		return map[string]int{"nmsg": pick(r, 1, 2, 3), "rmax": pick(r, 0, 1), "flush": pick(r, 1, 2), "buf": 0, "brokers": 1}
+	}},
 	{"producer", "unreachable", 14, func(r *rand.Rand) map[string]int {
 		return map[string]int{"nmsg": pick(r, 2, 3, 4), "rmax": pick(r, 0, 1, 2), "flush": 1, "buf": pick(r, 0, 1), "brokers": 1}
 	}},
@@ -64,6 +67,9 @@ var families = []family{
 	}},
 	{"pcons", "leaderloss", 16, func(r *rand.Rand) map[string]int {
 		return map[string]int{"nmsg": pick(r, 0, 2), "buf": pick(r, 0, 1, 4), "parts": pick(r, 1, 2), "reterr": pick(r, 0, 1), "brokers": 1}
+	}},
+	{"pcons", "siblings", 20, func(r *rand.Rand) map[string]int {
+		return map[string]int{"nmsg": pick(r, 1, 2), "buf": pick(r, 0, 1, 4), "parts": pick(r, 2, 3), "reterr": pick(r, 0, 1), "brokers": 1}
 	}},
 	{"pcons", "slow", 10, func(r *rand.Rand) map[string]int {
 		return map[string]int{"nmsg": pick(r, 3, 4), "buf": pick(r, 0, 1), "parts": 1, "reterr": pick(r, 0, 1), "brokers": 1}
@@ -154,7 +160,7 @@ func ks(kmax int, thorough bool, r *rand.Rand) []int {
 // every selected k, alternating Close / AsyncClose where the component has both.
 func makeSpecs(seed int64, thorough bool, limit int) []Spec {
 	r := rand.New(rand.NewSource(seed*7919 + 17))
-	rounds := 2
+	rounds := 3
 	if thorough {
 		rounds = 8
 	}
